@@ -150,3 +150,7 @@ ADDENDA6 = {'C02': ' A sixth of the trees run under a random number format (the 
 for _k, _x in ADDENDA6.items():
     _a = CLAIMED[_k]
     CLAIMED[_k] = (_a[0], _a[1] + _x, _a[2], _a[3])
+ADDENDA7 = {'C01': " Script names may be bound to date-times and be followed directly by a zone word.", 'C10': " Lines whose subtracted runs have one part each are also read with every '-' written directly in front of the count.", 'C14': " Clock times in 'D at T [Z]' carry seconds.", 'C17': " Rule patterns also use {PERCENT} and {MONEY} fields matched by sign-first and k/M-suffixed literals."}
+for _k, _x in ADDENDA7.items():
+    _a = CLAIMED[_k]
+    CLAIMED[_k] = (_a[0], _a[1] + _x, _a[2], _a[3])
